@@ -26,6 +26,7 @@ def c01(ctx, rep):
     rules_tables.search_preconditions(ctx, rep)
     rules_tables.search_callsite(ctx, rep)
     rules_api.detection(ctx, rep)
+    rules_bounds.helper_contracts(ctx, rep)
     rep.assumptions += ['injected NFC/NFKD agree with Unicode normalisation (Python unicodedata is the oracle for the table constants)',
                         'the comparator bodies implement the reference matching rule (C08)']
     return ('conjunction of necessary conditions that is also the proof skeleton of the round trip: packing bijection and symmetric coin '
@@ -47,6 +48,7 @@ def c02(ctx, rep):
 def c03(ctx, rep):
     rules_bits.packing(ctx, rep, want=('layout',))
     rules_api.encode_api(ctx, rep)
+    rules_bounds.helper_contracts(ctx, rep)
     rules_bits.mul2_and_horner(ctx, rep)
     rules_tables.registry_and_frozen(ctx, rep)
     return ('bit-provenance abstract interpretation of the packer and of polyseed_encode compared bit for bit with the published layout; '
@@ -102,6 +104,7 @@ def c10(ctx, rep):
 
 def c12(ctx, rep):
     rules_api.crypt(ctx, rep)
+    rules_bounds.helper_contracts(ctx, rep)
     rules_api.features(ctx, rep)
     rules_bits.storage_total(ctx, rep)
     return 'bitflow exit summary of polyseed_crypt with the KDF output as 256 symbols; the transformer composed with itself is the identity'
@@ -157,11 +160,13 @@ def c18(ctx, rep):
     rules_effects.frame(ctx, rep, cfgs=ctx.configs('path'))
     rules_api.inject(ctx, rep)
     rules_api.create(ctx, rep)
+    rules_bounds.helper_contracts(ctx, rep)
     return ('who-may-call allow-list over all configurations; dependency table written only by polyseed_inject; bitflow exit summaries of '
             'polyseed_inject (8 NULL patterns) and polyseed_create (CSPRNG output as symbols)')
 
 
 def c07(ctx, rep):
+    rules_bounds.helper_contracts(ctx, rep)
     rules_tables.registry_and_frozen(ctx, rep)
     rules_tables.normalisation(ctx, rep)
     rules_tables.search_preconditions(ctx, rep)
@@ -176,6 +181,7 @@ def c17(ctx, rep):
     rules_tables.phrase_size(ctx, rep)
     rules_api.encode_api(ctx, rep)
     rules_bounds.normaliser_buffers(ctx, rep)
+    rules_bounds.helper_contracts(ctx, rep)
     return ('per-position maxima of word lengths (NFKD and NFC) over all 2048 admissible indices, summed over 16 positions + 15 '
             'separators, compared with the compiled sizeof(polyseed_str); exit summary of encode ties the sum to the 16+15 writer calls')
 
@@ -196,6 +202,7 @@ def c08(ctx, rep):
 
 def c11(ctx, rep):
     rules_birthday.birthday(ctx, rep)
+    rules_bounds.helper_contracts(ctx, rep)
     rules_api.create(ctx, rep)
     rules_bits.packing(ctx, rep, want=('layout', 'inverse'))
     rules_bits.storage(ctx, rep)
@@ -221,6 +228,7 @@ def c14(ctx, rep):
     rules_api.features(ctx, rep)
     rules_bounds.counters(ctx, rep)
     rules_bounds.normaliser_buffers(ctx, rep)
+    rules_bounds.helper_contracts(ctx, rep)
     rules_cmp.cursor_safety(ctx, rep)
     rules_bounds.input_immutability(ctx, rep)
     rules_bounds.no_abort(ctx, rep)
